@@ -531,7 +531,14 @@ pub fn run(ctx: &mut Ctx) {
                 let classes: Vec<&str> = eps.iter().map(|e| e.0).collect();
                 let peaks: Vec<&str> = eps.iter().map(|e| e.1).collect();
                 ctx.tie(kind, &format!("c02ep {} {}", hexarg(b), orc), &classes.join(" "));
-                ctx.prop(kind, &format!("c02peak {} {} {} {}", hexarg(b), orc, term_size, peaks.join(",")), "ok");
+                // the driver accepts any request up to its fixed allowance (c02Slack, 24576 bytes) whatever the model says, so a
+                // case whose largest request stays below it cannot fail: the quick tier does not spend a model run on it
+                let largest = peaks.iter().filter_map(|p| p.parse::<u64>().ok()).max().unwrap_or(u64::MAX);
+                if ctx.thorough || largest > 24_576 {
+                    ctx.prop(kind, &format!("c02peak {} {} {} {}", hexarg(b), orc, term_size, peaks.join(",")), "ok");
+                } else {
+                    ctx.count("peak_within_fixed_allowance");
+                }
                 }
             }
         }
